@@ -331,8 +331,9 @@ def run(c, tier, scratch, repo, driver_binary, parsed, joined, llvm, mattr, pret
                 # "ERR": llvm-mc rejects the requested instruction
                 if r is not None and r[0] == "REFUSED" and r[1] in ("ERR", "-") and idx % inner == 0:
                     omap = OPERAND_MAP.get(j["method"], ({}, ""))[0]
-                    if all((k not in omap or omap[k](v) is not None) and (ty != "Int32" or -(1 << 31) <= v < (1 << 31))
-                           for k, (v, ty) in enumerate(zip(t, j["dtypes"]))):
+                    # the operand as the twin sees it (unit differences mapped) has to be expressible as its parameter type
+                    mapped = [(omap[k](v) if k in omap else v) for k, v in enumerate(t)]
+                    if all(mv is not None and (ty != "Int32" or -(1 << 31) <= mv < (1 << 31)) for mv, ty in zip(mapped, j["dtypes"])):
                         j["probe"].append((idx, t))
             idx += 1
         total_tuples += len(j["exp"])
